@@ -22,8 +22,10 @@ impl ReplayProtection {
     }
 
     pub fn already_received(&self, sequence: u64) -> bool {
-        if sequence + NETCODE_REPLAY_BUFFER_SIZE as u64 <= self.most_recent_sequence {
-            return true;
+        if let Some(oldest_accepted) = self.most_recent_sequence.checked_sub(NETCODE_REPLAY_BUFFER_SIZE as u64) {
+            if sequence <= oldest_accepted {
+                return true;
+            }
         }
 
         let index = sequence as usize % NETCODE_REPLAY_BUFFER_SIZE;
